@@ -389,7 +389,9 @@ func (s *clientSocket) writeWritablePackets(packets ...*parser.Packet) {
 					s.transport.Send(packets[:i]...)
 				}
 				packets = packets[i:]
-				i = 0
+				// Restart from the first remaining packet, so that it is counted too.
+				// -1, because the post statement of the loop increments `i` and `count`.
+				i, count = -1, count-1
 				payloadSize = 0
 				continue
 			}
